@@ -1793,10 +1793,10 @@ class MMSEIASolver(IterativeIASolverBaseClass):
                         maxiter=200)
                 except RuntimeError:  # pragma: nocover
                     # We get a RuntimeError if the maximum number of
-                    # iterations has been reached.
-                    raise RuntimeError(
-                        "Could not find optimum Lagrange multiplier in 200"
-                        " iterations.")
+                    # iterations has been reached (this happens for very
+                    # large powers). The root is then found below by
+                    # bracketing.
+                    mu_i = -1.0
 
                 # xxxxxxxxxx Handle case where a bad mu_i was found xxxxxxx
                 # Sometimes the optimization algorithm finds a solution,
